@@ -45,8 +45,8 @@ def parse(v: Any) -> tuple[str, int, str] | None:
         return None
     a, it, k = v.split("#")
     try:
-        return a.split(".")[0], int(it), k
-    except ValueError:
+        return a.split(".")[0], int(it), k, int(a.split(".")[1])  # type: ignore[return-value]
+    except (ValueError, IndexError):
         return None
 
 
@@ -69,6 +69,19 @@ def judge(prog: Program, ref: Any, run: dict[str, Any], info: dict[str, Any]) ->
         return r in final_ok or any(r.startswith(p + ":") for p in ("poller:done", "transient:ok", "jumper:pass"))
 
     latest: dict[tuple[str, int], int] = {}   # (stage, task idx) -> iteration of the latest producing execution
+    produced_log: dict[tuple[str, int], list[tuple[int, int]]] = {}   # -> [(audit seq at execution, iteration)]
+    claims: dict[str, list[int]] = {}
+    for r in h.audit:
+        if r["kind"] == "stage" and r["old"] == "NOT_STARTED" and r["new"] == "RUNNING":
+            claims.setdefault(r["row_id"], []).append(r["seq"])
+
+    def latest_at_plan(e: dict[str, Any], P: str, pidx: int) -> int:
+        """Iteration of producer (P, pidx)'s latest producing execution before the consuming stage was started."""
+        cs = [c for c in claims.get(e["stage_id"], []) if c <= e["audit_seq"]]
+        plan_seq = max(cs) if cs else e["audit_seq"]
+        its = [it for (q, it) in produced_log.get((P, pidx), []) if q < plan_seq]
+        return max(its) if its else -1
+
     for e in h.ledger:
         sref = e["stage_ref"]
         if sref in prog.stages:
@@ -87,16 +100,22 @@ def judge(prog: Program, ref: Any, run: dict[str, Any], info: dict[str, Any]) ->
                 p = parse(v)
                 if p is None:
                     continue
-                P, it, _ = p
+                P, it, _, pidx = p  # type: ignore[misc]
                 if P not in anc and P != sref:
                     problems.append(("foreign-output-visible", f"{e['key']} sees {k}={v!r} produced by {P}, which is not an ancestor of {sref}", "non-ancestor"))
                     continue
                 if P == sref:
                     continue
                 # current iteration: the producer's latest producing execution so far
-                cur = max((latest.get((P, i), -1) for i in prod_specs.get(P, {}).get(k, [])), default=-1)
+                cur = latest_at_plan(e, P, pidx)   # a stage's view is fixed when it starts; iterations are per producing task
                 if cur >= 0 and it < cur:
-                    problems.append(("stale-iteration-value", f"{e['key']} sees {k}={v!r} although {P} has since produced iteration {cur}", "stale-iteration"))
+                    # "baked": this very stage already saw (and, through planning, persisted into its own context) the
+                    # same value in an earlier run of itself; "fresh": it never held that value before
+                    baked = any(p0["stage_id"] == e["stage_id"] and p0["i"] < e["i"] and (p0.get("arm") or 0) < (e.get("arm") or 0)
+                                and p0["ctx"].get(k) == v for p0 in h.ledger)
+                    problems.append(("stale-iteration-value", f"{e['key']} sees {k}={v!r} although {P} has since produced iteration {cur}"
+                                     + (" (value carried over in the stage's own context from its previous run)" if baked else ""),
+                                     "stale-iteration:" + ("baked" if baked else "fresh")))
                 # nearest ancestor wins on path-ordered keys
                 producers = [a for a in anc if k in prod_specs.get(a, {}) and any(latest.get((a, i), -1) >= 0 for i in prod_specs[a][k])]
                 maximal = [a for a in producers if not any(a in prog.ancestors(b) for b in producers if b != a)]
@@ -132,6 +151,7 @@ def judge(prog: Program, ref: Any, run: dict[str, Any], info: dict[str, Any]) ->
             parts = e["key"].split("_")
             if len(parts) == 3 and parts[1] in prog.stages and parts[2].isdigit():
                 latest[(parts[1], int(parts[2]))] = int(e.get("it") or 0)
+                produced_log.setdefault((parts[1], int(parts[2])), []).append((e["audit_seq"], int(e.get("it") or 0)))
         if len(problems) > 6:
             break
     # de-duplicate by signature tail, keep first of each
